@@ -61,6 +61,58 @@ struct RegSpec {
     port: usize,
     /// StructReg group this MaskedIntReg is an entry of
     group: Option<usize>,
+    /// how the entry is DECLARED in the XML (struct level vs entry level); `mode` / `acc` / `invs`
+    /// above are always the EFFECTIVE values by the XML semantics (GenICam 2.8.7: the entry
+    /// overrides the StructReg where it declares the element; defaults WriteThrough / RO; an
+    /// empty entry pInvalidator list inherits the StructReg's). `None`: the entry declares all.
+    decl: Option<EntryDecl>,
+}
+
+#[derive(Clone, Debug, Default, PartialEq)]
+struct EntryDecl {
+    s_mode: Option<Mode>,
+    s_acc: Option<Acc>,
+    s_invs: Vec<usize>,
+    e_mode: Option<Mode>,
+    e_acc: Option<Acc>,
+    e_invs: Vec<usize>,
+}
+
+impl EntryDecl {
+    fn eff_mode(&self) -> Mode {
+        self.e_mode.or(self.s_mode).unwrap_or(Mode::WT)
+    }
+    fn eff_acc(&self) -> Acc {
+        self.e_acc.or(self.s_acc).unwrap_or(Acc::RO)
+    }
+    fn eff_invs(&self) -> Vec<usize> {
+        if self.e_invs.is_empty() {
+            self.s_invs.clone()
+        } else {
+            self.e_invs.clone()
+        }
+    }
+    fn to_text(&self) -> String {
+        let m = |x: &Option<Mode>| x.map_or("-".to_string(), |v| format!("{v:?}"));
+        let a = |x: &Option<Acc>| x.map_or("-".to_string(), |v| format!("{v:?}"));
+        format!("{}|{}|{}|{}|{}|{}", m(&self.s_mode), a(&self.s_acc), list_str(&self.s_invs), m(&self.e_mode), a(&self.e_acc), list_str(&self.e_invs))
+    }
+    fn from_text(t: &str) -> EntryDecl {
+        let f: Vec<&str> = t.split('|').collect();
+        let m = |x: &str| match x {
+            "WT" => Some(Mode::WT),
+            "WA" => Some(Mode::WA),
+            "NC" => Some(Mode::NC),
+            _ => None,
+        };
+        let a = |x: &str| match x {
+            "RO" => Some(Acc::RO),
+            "WO" => Some(Acc::WO),
+            "RW" => Some(Acc::RW),
+            _ => None,
+        };
+        EntryDecl { s_mode: m(f[0]), s_acc: a(f[1]), s_invs: p_list(f[2], ',', |x| x.parse().unwrap()), e_mode: m(f[3]), e_acc: a(f[4]), e_invs: p_list(f[5], ',', |x| x.parse().unwrap()) }
+    }
 }
 #[derive(Clone, Debug)]
 enum NodeSpec {
@@ -281,6 +333,7 @@ fn p_node(s: &str, group: Option<usize>) -> NodeSpec {
             invs: p_list(f[7], ',', |x| x.parse().unwrap()),
             port: f[8].parse().unwrap(),
             group,
+            decl: None,
         }),
         _ => panic!("bad node {s}"),
     }
@@ -343,12 +396,27 @@ fn case_to_json(c: &Case) -> Value {
         })
         .collect();
     let ctls: Vec<Value> = c.ctls.iter().map(|(n, k)| json!([n, k[0], k[1], k[2]])).collect();
-    json!({"graph": graph_str(&c.nodes), "groups": groups, "ctls": ctls, "dev": dev_str(&c.dev), "ops": ops_str(&c.ops)})
+    let sdecl: Vec<Value> = c
+        .nodes
+        .iter()
+        .map(|n| match n {
+            NodeSpec::Reg(RegSpec { decl: Some(d), .. }) => json!(d.to_text()),
+            _ => Value::Null,
+        })
+        .collect();
+    json!({"graph": graph_str(&c.nodes), "groups": groups, "sdecl": sdecl, "ctls": ctls, "dev": dev_str(&c.dev), "ops": ops_str(&c.ops)})
 }
 
 fn case_from_json(v: &Value) -> Case {
     let groups: Vec<Option<usize>> = v["groups"].as_array().map_or(vec![], |a| a.iter().map(|g| g.as_u64().map(|x| x as usize)).collect());
-    let nodes = v["graph"].as_str().unwrap().split(';').enumerate().map(|(i, s)| p_node(s, groups.get(i).copied().flatten())).collect();
+    let mut nodes: Vec<NodeSpec> = v["graph"].as_str().unwrap().split(';').enumerate().map(|(i, s)| p_node(s, groups.get(i).copied().flatten())).collect();
+    if let Some(sd) = v["sdecl"].as_array() {
+        for (i, d) in sd.iter().enumerate() {
+            if let (Some(t), Some(NodeSpec::Reg(r))) = (d.as_str(), nodes.get_mut(i)) {
+                r.decl = Some(EntryDecl::from_text(t));
+            }
+        }
+    }
     let ctls = v["ctls"].as_array().map_or(vec![], |a| {
         a.iter()
             .map(|e| {
@@ -437,16 +505,36 @@ fn xml_of(nodes: &[NodeSpec], ctls: &[(usize, [Option<usize>; 3])]) -> String {
                     done_groups.push(gid);
                     // one <StructReg> for all entries of the group; common part from the first entry
                     let be = matches!(r.kind, Kind::Masked { be: true, .. });
-                    s += &format!("<StructReg Comment=\"G{gid}\">{}<Length>{}</Length><pPort>N{}</pPort>{}", addr_xml(r), r.len, r.port, endian_xml(be));
+                    let sd = r.decl.clone().unwrap_or_default();
+                    s += &format!("<StructReg Comment=\"G{gid}\">{}<Length>{}</Length>", addr_xml(r), r.len);
+                    if let Some(a) = sd.s_acc {
+                        s += &format!("<AccessMode>{a:?}</AccessMode>");
+                    }
+                    s += &format!("<pPort>N{}</pPort>", r.port);
+                    if let Some(m) = sd.s_mode {
+                        s += &format!("<Cachable>{}</Cachable>", mode_xml(m));
+                    }
+                    for inv in &sd.s_invs {
+                        s += &format!("<pInvalidator>N{inv}</pInvalidator>");
+                    }
+                    s += endian_xml(be);
                     for (j, m) in nodes.iter().enumerate() {
                         if let NodeSpec::Reg(e) = m {
                             if e.group == Some(gid) {
                                 if let Kind::Masked { signed, lsb, msb, .. } = e.kind {
                                     s += &format!("<StructEntry Name=\"N{j}\">");
-                                    for inv in &e.invs {
+                                    // legacy cases (no `decl`): the entry declares everything
+                                    let ed = e.decl.clone().unwrap_or(EntryDecl { e_mode: Some(e.mode), e_acc: Some(e.acc), e_invs: e.invs.clone(), ..Default::default() });
+                                    for inv in &ed.e_invs {
                                         s += &format!("<pInvalidator>N{inv}</pInvalidator>");
                                     }
-                                    s += &format!("<AccessMode>{:?}</AccessMode><Cachable>{}</Cachable><LSB>{lsb}</LSB><MSB>{msb}</MSB>{}</StructEntry>", e.acc, mode_xml(e.mode), sign_xml(signed));
+                                    if let Some(a) = ed.e_acc {
+                                        s += &format!("<AccessMode>{a:?}</AccessMode>");
+                                    }
+                                    if let Some(m) = ed.e_mode {
+                                        s += &format!("<Cachable>{}</Cachable>", mode_xml(m));
+                                    }
+                                    s += &format!("<LSB>{lsb}</LSB><MSB>{msb}</MSB>{}</StructEntry>", sign_xml(signed));
                                 }
                             }
                         }
@@ -798,6 +886,30 @@ fn effective_invs(store: &DefaultNodeStore, nid: NodeId) -> Option<Vec<usize>> {
     Some(rb.p_invalidators().iter().map(|i| store.name_by_id(*i).and_then(|s| s[1..].parse().ok()).unwrap_or(usize::MAX)).collect())
 }
 
+/// Cachable / AccessMode as the parser stored them
+fn effective_mode_acc(store: &DefaultNodeStore, nid: NodeId) -> Option<(Mode, Acc)> {
+    use cameleon_genapi::elem_type::{AccessMode, CachingMode};
+    let rb = match store.node_opt(nid)? {
+        NodeData::IntReg(n) => n.register_base(),
+        NodeData::MaskedIntReg(n) => n.register_base(),
+        NodeData::FloatReg(n) => n.register_base(),
+        NodeData::StringReg(n) => n.register_base(),
+        NodeData::Register(n) => n.register_base(),
+        _ => return None,
+    };
+    let m = match rb.cacheable() {
+        CachingMode::WriteThrough => Mode::WT,
+        CachingMode::WriteAround => Mode::WA,
+        CachingMode::NoCache => Mode::NC,
+    };
+    let a = match rb.access_mode() {
+        AccessMode::RO => Acc::RO,
+        AccessMode::WO => Acc::WO,
+        AccessMode::RW => Acc::RW,
+    };
+    Some((m, a))
+}
+
 // ---------------------------------------------------------------- Declared (mirror of the Lean predicate; tied through `c04 decl`)
 
 /// values a selector node can have as far as its kind tells (mirror of `selRange`)
@@ -989,9 +1101,13 @@ fn paths_covered(nodes: &[NodeSpec], x: usize, w: usize, invs: &[usize], depth: 
 }
 
 /// entry node of a writing operation
-fn write_entry(op: &Op) -> Option<usize> {
+fn write_entry(nodes: &[NodeSpec], op: &Op) -> Option<usize> {
     match op {
-        Op::SetValue(n, _) | Op::Execute(n) | Op::Write(n, _) => Some(*n),
+        Op::SetValue(n, _) => Some(*n),
+        // `execute` of something that is not a Command / raw write of something that is not a
+        // register fails with InvalidNode before anything happens
+        Op::Execute(n) if matches!(nodes.get(*n), Some(NodeSpec::Command(..))) => Some(*n),
+        Op::Write(n, _) if matches!(nodes.get(*n), Some(NodeSpec::Reg(_))) => Some(*n),
         _ => None,
     }
 }
@@ -1013,7 +1129,7 @@ fn declared_for_history(nodes: &[NodeSpec], ops: &[Op]) -> (bool, bool) {
             continue;
         }
         plain = false;
-        for e in ops.iter().filter_map(write_entry) {
+        for e in ops.iter().filter_map(|op| write_entry(nodes, op)) {
             let mut regs = vec![];
             reach_regs(nodes, e, d, &mut regs);
             if !regs.contains(&w) {
@@ -1077,7 +1193,7 @@ fn gen_case(rng: &mut Rng, stream: Stream, thorough: bool) -> Case {
         // a selector that is itself selector-addressed (by an earlier selector)
         let sel = if k > 0 && rng.chance(1, 4) { Some((selectors[0], *rng.pick(&[1i64, 1, 2, -1]))) } else { None };
         let reg = nodes.len();
-        nodes.push(NodeSpec::Reg(RegSpec { kind: Kind::Int { be, signed: rng.chance(1, 5) }, base, sel, len, mode: gen_mode(rng), acc: Acc::RW, invs: vec![], port: pick_port(rng, &ports), group: None }));
+        nodes.push(NodeSpec::Reg(RegSpec { kind: Kind::Int { be, signed: rng.chance(1, 5) }, base, sel, len, mode: gen_mode(rng), acc: Acc::RW, invs: vec![], port: pick_port(rng, &ports), group: None, decl: None }));
         if rng.chance(1, 4) {
             // the selector used by registers is an Integer feature over the register
             selectors.push(nodes.len());
@@ -1125,7 +1241,7 @@ fn gen_case(rng: &mut Rng, stream: Stream, thorough: bool) -> Case {
         let sel = gen_sel(rng, &selectors, len);
         // rarely pPort names a node that is not a port (every access: InvalidNode)
         let port = if rng.chance(1, 40) && nodes.len() > 2 { nodes.len() - 1 } else { pick_port(rng, &ports) };
-        nodes.push(NodeSpec::Reg(RegSpec { kind, base, sel, len, mode: gen_mode(rng), acc: gen_acc(rng), invs: vec![], port, group: None }));
+        nodes.push(NodeSpec::Reg(RegSpec { kind, base, sel, len, mode: gen_mode(rng), acc: gen_acc(rng), invs: vec![], port, group: None, decl: None }));
     }
     // struct groups
     let n_groups = if rng.chance(1, 2) { rng.range(1, 2) } else { 0 };
@@ -1135,13 +1251,18 @@ fn gen_case(rng: &mut Rng, stream: Stream, thorough: bool) -> Case {
         let base = place(rng, len);
         let sel = if rng.chance(1, 4) { gen_sel(rng, &selectors, len) } else { None };
         let port = pick_port(rng, &ports);
-        for _ in 0..rng.range(2, 3) {
+        // Cachable / AccessMode declared at struct level, entry level, both (possibly different
+        // values) or neither; the effective value follows the XML semantics
+        let s_mode = if rng.bool() { Some(gen_mode(rng)) } else { None };
+        let s_acc = if rng.bool() { Some(gen_acc(rng)) } else { None };
+        for _ in 0..rng.range(1, 3) {
             let (lsb, msb) = gen_masked_bits(rng, len, be);
-            nodes.push(NodeSpec::Reg(RegSpec { kind: Kind::Masked { be, signed: rng.chance(1, 3), lsb, msb }, base, sel, len, mode: gen_mode(rng), acc: gen_acc(rng), invs: vec![], port, group: Some(gid) }));
+            let d = EntryDecl { s_mode, s_acc, s_invs: vec![], e_mode: if rng.bool() { Some(gen_mode(rng)) } else { None }, e_acc: if rng.bool() { Some(gen_acc(rng)) } else { None }, e_invs: vec![] };
+            nodes.push(NodeSpec::Reg(RegSpec { kind: Kind::Masked { be, signed: rng.chance(1, 3), lsb, msb }, base, sel, len, mode: d.eff_mode(), acc: d.eff_acc(), invs: vec![], port, group: Some(gid), decl: Some(d) }));
         }
     }
     // features: Integer (pValue, pValueCopy*), Boolean, Enumeration, Command
-    let n_feat = if stream == Stream::Via { rng.range(2, 6) } else { rng.below(6) };
+    let n_feat = if stream == Stream::Via { rng.range(3, 7) } else { rng.below(6) };
     for _ in 0..n_feat {
         let cands: Vec<usize> = (0..nodes.len()).filter(|i| int_kind(&nodes[*i])).collect();
         let pv = if cands.is_empty() || rng.chance(1, 15) { pick_non_float(rng, &nodes) } else { *rng.pick(&cands) };
@@ -1192,8 +1313,22 @@ fn gen_case(rng: &mut Rng, stream: Stream, thorough: bool) -> Case {
                 rs.contains(w)
             })
             .collect();
-        let add: Vec<usize> = if stream == Stream::Via && !above.is_empty() && rng.chance(4, 5) {
-            if rng.chance(3, 4) {
+        if stream == Stream::Via && above.is_empty() && rng.bool() {
+            // nothing in this stream can write `w` (writes enter through features only)
+            continue;
+        }
+        let via_safe = w != t
+            && above.iter().all(|f| {
+                let mut rs = vec![];
+                reach_regs(&nodes, *f, depth, &mut rs);
+                let mut touched = vec![];
+                for r in &rs {
+                    read_cone(&nodes, *r, depth, &mut touched);
+                }
+                !touched.contains(t)
+            });
+        let add: Vec<usize> = if stream == Stream::Via && !above.is_empty() && via_safe && rng.chance(9, 10) {
+            if rng.chance(9, 10) {
                 above.clone()
             } else {
                 above.iter().copied().filter(|_| rng.bool()).collect()
@@ -1225,6 +1360,46 @@ fn gen_case(rng: &mut Rng, stream: Stream, thorough: bool) -> Case {
                 let x = rng.below(n_nodes as u64) as usize;
                 if !r.invs.contains(&x) {
                     r.invs.push(x);
+                }
+            }
+        }
+    }
+    // StructReg groups: place the pInvalidator lists at struct level, entry level, both or neither
+    // (an entry without own pInvalidators inherits the StructReg's list)
+    {
+        let gids: Vec<usize> = nodes.iter().filter_map(|n| if let NodeSpec::Reg(r) = n { r.group } else { None }).collect();
+        for gid in gids.iter().copied().collect::<std::collections::BTreeSet<_>>() {
+            let members: Vec<usize> = (0..nodes.len()).filter(|i| matches!(&nodes[*i], NodeSpec::Reg(r) if r.group == Some(gid))).collect();
+            let mut union: Vec<usize> = vec![];
+            for m in &members {
+                if let NodeSpec::Reg(r) = &nodes[*m] {
+                    for x in &r.invs {
+                        if !union.contains(x) {
+                            union.push(*x);
+                        }
+                    }
+                }
+            }
+            let s_invs: Vec<usize> = match rng.below(4) {
+                0 => vec![],
+                1 => match &nodes[*rng.pick(&members)] {
+                    NodeSpec::Reg(r) => r.invs.clone(),
+                    _ => vec![],
+                },
+                _ => union.clone(),
+            };
+            for m in &members {
+                if let NodeSpec::Reg(r) = &mut nodes[*m] {
+                    let covers = r.invs.iter().all(|x| s_invs.contains(x));
+                    // inherit when that loses nothing (struct list is a superset), sometimes; an
+                    // entry with nothing to declare inherits by force
+                    let inherit = r.invs.is_empty() || (covers && rng.bool());
+                    let e_invs = if inherit { vec![] } else { r.invs.clone() };
+                    if let Some(d) = &mut r.decl {
+                        d.s_invs = s_invs.clone();
+                        d.e_invs = e_invs;
+                        r.invs = d.eff_invs();
+                    }
                 }
             }
         }
@@ -1590,11 +1765,13 @@ fn do_case(rep: &mut Report, case: &Case, src: &str, replay: Value) {
     let ids_c: Vec<NodeId> = (0..case.nodes.len()).map(|i| store_c.id_by_name(format!("N{i}")).expect("node present")).collect();
     let ids_u: Vec<NodeId> = (0..case.nodes.len()).map(|i| store_u.id_by_name(format!("N{i}")).expect("node present")).collect();
 
-    // the graph as the parser stored it (pInvalidator lists read back from the node store)
-    let mut eff = case.nodes.clone();
+    // The abstract description (what the model and the oracles see) is what the XML says, by
+    // the XML semantics — never what the parser made of it.  The parsed node's getters are only
+    // COMPARED with it (a difference is a finding of its own).
+    let eff = case.nodes.clone();
     let mut lost_struct = false;
     let mut lost_other = false;
-    for (i, n) in eff.iter_mut().enumerate() {
+    for (i, n) in eff.iter().enumerate() {
         if let NodeSpec::Reg(r) = n {
             let got = effective_invs(&store_c, ids_c[i]).unwrap_or_default();
             if got != r.invs {
@@ -1603,18 +1780,29 @@ fn do_case(rep: &mut Report, case: &Case, src: &str, replay: Value) {
                 } else {
                     lost_other = true;
                 }
-                r.invs = got;
+            }
+            if let Some((m, a)) = effective_mode_acc(&store_c, ids_c[i]) {
+                if m != r.mode || a != r.acc {
+                    rep.count("parse:register-cachable-or-accessmode-differs-from-xml");
+                    if rep.dist.get("parse:register-cachable-or-accessmode-differs-from-xml") == Some(&1) {
+                        rep.violation(
+                            json!({"kind": if r.group.is_some() { "struct-entry-merge-wrong" } else { "register-attribute-wrong" }}),
+                            &format!("node N{i}: the XML says Cachable={:?} AccessMode={:?} (struct level {:?}, entry level {:?}) but the parsed register has Cachable={m:?} AccessMode={a:?}", r.mode, r.acc, r.decl.as_ref().map(|d| (d.s_mode, d.s_acc)), r.decl.as_ref().map(|d| (d.e_mode, d.e_acc))),
+                            replay.clone(),
+                        );
+                    }
+                }
             }
         }
     }
     if lost_struct {
         rep.count("parse:struct-entry-invalidator-lost");
     }
-    // reported once per run (every StructReg case shows it while F-C17-1 is open)
+    // reported once per run
     if lost_struct && rep.dist.get("parse:struct-entry-invalidator-lost") == Some(&1) {
         rep.violation(
             json!({"kind": "struct-entry-invalidator-lost"}),
-            "pInvalidator declared on a StructEntry is not registered for the resulting MaskedIntReg (F-C17-1): sibling entries sharing one register are cached without invalidation",
+            "the pInvalidator list of a StructEntry's MaskedIntReg differs from the XML (entry list, else the StructReg's): sibling entries sharing one register are cached without invalidation",
             replay.clone(),
         );
     }
@@ -1649,6 +1837,30 @@ fn do_case(rep: &mut Report, case: &Case, src: &str, replay: Value) {
     } else {
         "oracle:port-write-undeclared(tie only)"
     });
+    rep.count(&format!("class/{src}: {}", if decl && hist_ok { "declared" } else if decl_hist && hist_ok { "declared-via-feature" } else { "tie only" }));
+    for n in eff.iter() {
+        if let NodeSpec::Reg(RegSpec { decl: Some(d), mode, .. }) = n {
+            rep.count(match (d.s_mode.is_some(), d.e_mode.is_some()) {
+                (true, true) if d.s_mode != d.e_mode => "struct-entry:Cachable at both levels (different)",
+                (true, true) => "struct-entry:Cachable at both levels (same)",
+                (true, false) => "struct-entry:Cachable at struct level only",
+                (false, true) => "struct-entry:Cachable at entry level only",
+                (false, false) => "struct-entry:Cachable nowhere (default WriteThrough)",
+            });
+            if d.e_mode.is_some() != d.e_acc.is_some() {
+                rep.count("struct-entry:declares exactly one of AccessMode / Cachable");
+                if *mode == Mode::NC {
+                    rep.count("struct-entry:... and is effectively NoCache");
+                }
+            }
+            rep.count(match (d.s_invs.is_empty(), d.e_invs.is_empty()) {
+                (false, false) => "struct-entry:pInvalidator at both levels",
+                (false, true) => "struct-entry:pInvalidator inherited from the StructReg",
+                (true, false) => "struct-entry:pInvalidator at entry level only",
+                (true, true) => "struct-entry:pInvalidator nowhere",
+            });
+        }
+    }
     if !modelled {
         rep.count("tie:skipped(controllers / is_* queries are not in the model)");
     }
@@ -1783,7 +1995,12 @@ fn oracle(eff: &[NodeSpec], case: &Case, rc: &RunResult, ru: &RunResult, counts:
         if let Op::Value(n) | Op::Read(n, _) = op {
             if let NodeSpec::Reg(r) = &eff[*n] {
                 if r.mode == Mode::NC && ok {
-                    let hit = grown.last().map_or(false, |a| !a.write && a.ok && a.len as u64 == r.len);
+                    let addr_ok = |a: i64| match r.sel {
+                        None => a == r.base,
+                        // (without overflow checks selector * offset wraps: no exact multiple then)
+                        Some((_, off)) => off == 0 || (a as i128 - r.base as i128) % (off as i128) == 0 || profile() == "release",
+                    };
+                    let hit = grown.last().map_or(false, |a| !a.write && a.ok && a.len as u64 == r.len && addr_ok(a.addr));
                     if !hit {
                         out.push((json!({"kind": "nocache-served-without-device-read"}), format!("op #{i} `{}` on a NoCache register returned without reading the device", op_str(op))));
                     }
@@ -1791,20 +2008,68 @@ fn oracle(eff: &[NodeSpec], case: &Case, rc: &RunResult, ru: &RunResult, counts:
                 }
             }
         }
-        // own write visible: set_value(v) on a static int register, next op value() of the same node
-        if let (Op::SetValue(n, ValS::Int(v)), Some(Op::Value(m))) = (op, case.ops.get(i + 1)) {
-            if n == m && ok && i + 1 < rc.outs.len() {
-                if let NodeSpec::Reg(r) = &eff[*n] {
-                    let fits = int_range(r).map_or(false, |(lo, hi)| (*v as i128) >= lo && (*v as i128) <= hi);
-                    if r.sel.is_none() && fits {
-                        if let Out::Int(got) = &rc.outs[i + 1] {
-                            counts.push("oracle:own-write-checked");
-                            if got != v {
-                                out.push((
-                                    json!({"kind": "own-write-hidden", "mode": format!("{:?}", r.mode)}),
-                                    format!("op #{i} `{}` succeeded but the next value() returned {got} (mode {:?})", op_str(op), r.mode),
-                                ));
+        // own write visible: a successful direct write of a constant-address register (typed
+        // set_value or raw IRegister::write) must be what every later value()/read() of that
+        // register returns until the next writing operation, whatever was cached before
+        let target = match op {
+            Op::SetValue(n, _) | Op::Write(n, _) => Some(*n),
+            _ => None,
+        };
+        if let (true, Some(n)) = (ok, target) {
+            if let NodeSpec::Reg(r) = &eff[n] {
+                let full = |d: &Vec<u8>| d.len() as u64 == r.len;
+                let ascii = |d: &[u8]| d.iter().all(|b| *b < 0x80);
+                // (expected value(), expected raw bytes)
+                let expect: (Option<Out>, Option<Vec<u8>>) = match (op, &r.kind) {
+                    (Op::SetValue(_, ValS::Int(v)), Kind::Int { .. } | Kind::Masked { .. }) if int_range(r).map_or(false, |(lo, hi)| (*v as i128) >= lo && (*v as i128) <= hi) => (Some(Out::Int(*v)), None),
+                    (Op::SetValue(_, ValS::Str(t)), Kind::Str) if ascii(t) && !t.contains(&0) => (Some(Out::Str(String::from_utf8_lossy(t).to_string())), None),
+                    (Op::SetValue(_, ValS::Flt(8, b)), Kind::Float { .. }) if r.len == 8 && !f64::from_bits(*b).is_nan() => (Some(Out::Flt(8, *b, false)), None),
+                    (Op::Write(_, d), Kind::Int { be, signed }) if full(d) && matches!(r.len, 1 | 2 | 4 | 8) => {
+                        let mut u: u64 = 0;
+                        let it: Box<dyn Iterator<Item = &u8>> = if *be { Box::new(d.iter()) } else { Box::new(d.iter().rev()) };
+                        for b in it {
+                            u = (u << 8) | *b as u64;
+                        }
+                        let bits = 8 * r.len as u32;
+                        let v = if *signed && bits < 64 && (u >> (bits - 1)) & 1 == 1 { (u as i64) - (1i64 << bits) } else { u as i64 };
+                        (Some(Out::Int(v)), Some(d.clone()))
+                    }
+                    (Op::Write(_, d), Kind::Str) if full(d) && ascii(d) => {
+                        let end = d.iter().position(|b| *b == 0).unwrap_or(d.len());
+                        (Some(Out::Str(String::from_utf8_lossy(&d[..end]).to_string())), Some(d.clone()))
+                    }
+                    (Op::Write(_, d), _) if full(d) => (None, Some(d.clone())),
+                    _ => (None, None),
+                };
+                if r.sel.is_none() && (expect.0.is_some() || expect.1.is_some()) {
+                    for j in i + 1..rc.outs.len() {
+                        match &case.ops[j] {
+                            Op::SetValue(..) | Op::Write(..) | Op::Execute(_) | Op::PortWrite(..) => break,
+                            Op::Value(m) if *m == n => {
+                                if let (Some(e), false) = (&expect.0, matches!(rc.outs[j], Out::Err(_) | Out::Panic)) {
+                                    counts.push("oracle:own-write-checked");
+                                    if &rc.outs[j] != e {
+                                        out.push((
+                                            json!({"kind": "own-write-hidden", "mode": format!("{:?}", r.mode)}),
+                                            format!("op #{i} `{}` succeeded but op #{j} value() returned {} (mode {:?})", op_str(op), out_str(&rc.outs[j]), r.mode),
+                                        ));
+                                        break;
+                                    }
+                                }
                             }
+                            Op::Read(m, l) if *m == n && *l as u64 == r.len => {
+                                if let (Some(e), Out::Bytes(got)) = (&expect.1, &rc.outs[j]) {
+                                    counts.push("oracle:own-write-checked");
+                                    if got != e {
+                                        out.push((
+                                            json!({"kind": "own-write-hidden", "mode": format!("{:?}", r.mode)}),
+                                            format!("op #{i} `{}` succeeded but op #{j} read() returned {} (mode {:?})", op_str(op), hex(got), r.mode),
+                                        ));
+                                        break;
+                                    }
+                                }
+                            }
+                            _ => {}
                         }
                     }
                 }
@@ -1826,12 +2091,7 @@ fn findings_of(case: &Case) -> Vec<(Value, String)> {
     };
     let ids_c: Vec<NodeId> = (0..case.nodes.len()).map(|i| store_c.id_by_name(format!("N{i}")).expect("node present")).collect();
     let ids_u: Vec<NodeId> = (0..case.nodes.len()).map(|i| store_u.id_by_name(format!("N{i}")).expect("node present")).collect();
-    let mut eff = case.nodes.clone();
-    for (i, n) in eff.iter_mut().enumerate() {
-        if let NodeSpec::Reg(r) = n {
-            r.invs = effective_invs(&store_c, ids_c[i]).unwrap_or_default();
-        }
-    }
+    let eff = case.nodes.clone();
     let rc = run_hist(&eff, &ids_c, &store_c, &mut cx_c, &case.dev, &case.ops);
     let ru = run_hist(&eff, &ids_u, &store_u, &mut cx_u, &case.dev, &case.ops);
     oracle(&eff, case, &rc, &ru, &mut vec![])
@@ -1857,6 +2117,381 @@ fn shrink(case: &Case, kind: &str) -> Option<(Case, String)> {
         }
     }
     what.map(|w| (cur, w))
+}
+
+// ---------------------------------------------------------------- shapes stream (implementation vs implementation only)
+//
+// Register shapes the model does not have: node-valued <pLength> (the LENGTH component of the
+// cache key changes), <pAddress>, an embedded <IntSwissKnife> address, <pIndex pOffset=..>,
+// and Float / String / Converter / IntConverter / IntSwissKnife features.  Every cachable
+// register lists EVERY port as pInvalidator, so every device write (all of them go through
+// `PortNode::write`) invalidates every cachable register: the description is declared
+// whatever its shape.  Only the cached-vs-uncached oracle applies (no model tie).
+
+#[derive(Clone, Copy, PartialEq, Eq, Debug)]
+enum SK {
+    Port,
+    Int,
+    Flt,
+    Str,
+    Bool,
+    Cmd,
+    Raw,
+}
+
+#[derive(Clone, Debug)]
+struct ShapeCase {
+    xml: String,
+    /// interface kind and "is a register" per node N0..
+    kinds: Vec<(SK, bool)>,
+    dev: DevSpec,
+    ops: Vec<Op>,
+}
+
+fn sk_str(k: SK) -> &'static str {
+    match k {
+        SK::Port => "P",
+        SK::Int => "I",
+        SK::Flt => "F",
+        SK::Str => "S",
+        SK::Bool => "B",
+        SK::Cmd => "C",
+        SK::Raw => "R",
+    }
+}
+
+fn shape_to_json(c: &ShapeCase) -> Value {
+    let kinds: Vec<String> = c.kinds.iter().map(|(k, r)| format!("{}{}", sk_str(*k), *r as u8)).collect();
+    json!({"shape": {"xml": c.xml, "kinds": kinds}, "dev": dev_str(&c.dev), "ops": ops_str(&c.ops)})
+}
+
+fn shape_from_json(v: &Value) -> ShapeCase {
+    let kinds = v["shape"]["kinds"]
+        .as_array()
+        .unwrap()
+        .iter()
+        .map(|x| {
+            let t = x.as_str().unwrap();
+            let k = match &t[..1] {
+                "P" => SK::Port,
+                "I" => SK::Int,
+                "F" => SK::Flt,
+                "S" => SK::Str,
+                "B" => SK::Bool,
+                "C" => SK::Cmd,
+                _ => SK::Raw,
+            };
+            (k, &t[1..] == "1")
+        })
+        .collect();
+    ShapeCase { xml: v["shape"]["xml"].as_str().unwrap().to_string(), kinds, dev: p_dev(v["dev"].as_str().unwrap()), ops: p_list(v["ops"].as_str().unwrap(), ';', p_op) }
+}
+
+fn gen_shape_case(rng: &mut Rng, thorough: bool) -> (ShapeCase, Vec<&'static str>) {
+    let n_mem = 64usize;
+    let mut mem = rng.bytes(n_mem);
+    let mut xml = String::from(XML_HEAD);
+    let mut kinds: Vec<(SK, bool)> = vec![];
+    let mut feats: Vec<&'static str> = vec![];
+    let two_ports = rng.chance(1, 3);
+    xml += "<Port Name=\"N0\"></Port>\n";
+    kinds.push((SK::Port, false));
+    if two_ports {
+        xml += "<Port Name=\"N1\"></Port>\n";
+        kinds.push((SK::Port, false));
+    }
+    let n_ports = kinds.len();
+    let invs: String = (0..n_ports).map(|p| format!("<pInvalidator>N{p}</pInvalidator>")).collect();
+    let tail = |rng: &mut Rng| -> String { format!("<AccessMode>RW</AccessMode><pPort>N{}</pPort><Cachable>{}</Cachable>{}", rng.below(n_ports as u64), mode_xml(gen_mode(rng)), invs) };
+    // small integer sources: 1-byte unsigned registers holding small values
+    let mut srcs: Vec<usize> = vec![];
+    for _ in 0..rng.range(2, 4) {
+        let a = rng.below(16) as usize;
+        mem[a] = *rng.pick(&[0u8, 1, 2, 2, 4, 4, 8, 3]);
+        let i = kinds.len();
+        xml += &format!("<IntReg Name=\"N{i}\"><Address>{a}</Address><Length>1</Length>{}<Sign>Unsigned</Sign><Endianess>LittleEndian</Endianess></IntReg>\n", tail(rng));
+        kinds.push((SK::Int, true));
+        srcs.push(i);
+    }
+    // ... and Integer nodes with an immediate <Value> (value store): changing them is NOT a device
+    // write, so nothing is invalidated and one register is cached under several (address, length)
+    // keys at the same time — the only way to make the length component of the key observable
+    let mut vsrcs: Vec<usize> = vec![];
+    for _ in 0..rng.range(1, 2) {
+        let i = kinds.len();
+        xml += &format!("<Integer Name=\"N{i}\"><Value>{}</Value></Integer>\n", rng.pick(&[1i64, 2, 2, 4, 4, 8]));
+        kinds.push((SK::Int, false));
+        srcs.push(i);
+        vsrcs.push(i);
+        feats.push("shape:value-store-source");
+    }
+    // shaped registers
+    let mut sk_count = 0;
+    for _ in 0..rng.range(2, 5) {
+        let i = kinds.len();
+        let mut addr = String::new();
+        let base = 16 + rng.below(24);
+        match rng.below(6) {
+            0 => addr += &format!("<Address>{base}</Address>"),
+            1 => {
+                feats.push("shape:pAddress");
+                addr += &format!("<Address>{base}</Address><pAddress>N{}</pAddress>", rng.pick(&srcs));
+            }
+            2 => {
+                feats.push("shape:IntSwissKnife-address");
+                sk_count += 1;
+                addr += &format!("<IntSwissKnife Name=\"SK{sk_count}\"><pVariable Name=\"X\">N{}</pVariable><Formula>X * {} + {base}</Formula></IntSwissKnife>", rng.pick(&srcs), rng.range(1, 4));
+            }
+            3 => {
+                feats.push("shape:pIndex-pOffset");
+                addr += &format!("<Address>{base}</Address><pIndex pOffset=\"N{}\">N{}</pIndex>", rng.pick(&srcs), rng.pick(&srcs));
+            }
+            4 => {
+                feats.push("shape:pIndex-Offset");
+                addr += &format!("<Address>{base}</Address><pIndex Offset=\"{}\">N{}</pIndex>", rng.range(1, 4), rng.pick(&srcs));
+            }
+            _ => {
+                feats.push("shape:pIndex-no-offset");
+                addr += &format!("<Address>{base}</Address><pIndex>N{}</pIndex>", rng.pick(&srcs));
+            }
+        }
+        let plen = rng.chance(1, 2);
+        let len = if plen {
+            feats.push("shape:pLength");
+            format!("<pLength>N{}</pLength>", if rng.chance(7, 10) { rng.pick(&vsrcs) } else { rng.pick(&srcs) })
+        } else {
+            format!("<Length>{}</Length>", rng.pick(&[1u64, 2, 4, 4, 8]))
+        };
+        let (tag, extra, k) = match rng.below(6) {
+            0 | 1 => ("IntReg", format!("{}{}", sign_xml(rng.bool()), endian_xml(rng.bool())), SK::Int),
+            2 => ("MaskedIntReg", format!("<LSB>0</LSB><MSB>{}</MSB>{}<Endianess>LittleEndian</Endianess>", rng.range(0, 6), sign_xml(false)), SK::Int),
+            3 => ("FloatReg", endian_xml(rng.bool()).to_string(), SK::Flt),
+            4 => ("StringReg", String::new(), SK::Str),
+            _ => ("Register", String::new(), SK::Raw),
+        };
+        xml += &format!("<{tag} Name=\"N{i}\">{addr}{len}{}{extra}</{tag}>\n", tail(rng));
+        kinds.push((k, true));
+    }
+    // features over what exists
+    for _ in 0..rng.range(1, 5) {
+        let i = kinds.len();
+        // write targets exclude the length / address sources: a length of 10^17 read back from a
+        // wide register aborts the process in `vec![0; length]` (allocation failure, not a panic)
+        let ints_all: Vec<usize> = (0..kinds.len()).filter(|j| kinds[*j].0 == SK::Int).collect();
+        let ints: Vec<usize> = ints_all.iter().copied().filter(|j| !vsrcs.contains(j)).collect();
+        let flts: Vec<usize> = (0..kinds.len()).filter(|j| kinds[*j].0 == SK::Flt).collect();
+        let strs: Vec<usize> = (0..kinds.len()).filter(|j| kinds[*j].0 == SK::Str).collect();
+        match rng.below(8) {
+            0 => {
+                feats.push("shape:Converter");
+                let tgt = if !flts.is_empty() && rng.bool() { *rng.pick(&flts) } else { *rng.pick(&ints) };
+                xml += &format!("<Converter Name=\"N{i}\"><FormulaTo>FROM * 2</FormulaTo><FormulaFrom>TO / 2</FormulaFrom><pValue>N{tgt}</pValue></Converter>\n");
+                kinds.push((SK::Flt, false));
+            }
+            1 => {
+                feats.push("shape:IntConverter");
+                xml += &format!("<IntConverter Name=\"N{i}\"><pVariable Name=\"V\">N{}</pVariable><FormulaTo>FROM + V</FormulaTo><FormulaFrom>TO - V</FormulaFrom><pValue>N{}</pValue></IntConverter>\n", rng.pick(&ints_all), rng.pick(&ints));
+                kinds.push((SK::Int, false));
+            }
+            2 => {
+                feats.push("shape:Float-feature");
+                let tgt = if !flts.is_empty() && rng.chance(2, 3) { *rng.pick(&flts) } else { *rng.pick(&ints) };
+                xml += &format!("<Float Name=\"N{i}\"><pValue>N{tgt}</pValue></Float>\n");
+                kinds.push((SK::Flt, false));
+            }
+            3 if !strs.is_empty() => {
+                feats.push("shape:String-feature");
+                xml += &format!("<String Name=\"N{i}\"><pValue>N{}</pValue></String>\n", rng.pick(&strs));
+                kinds.push((SK::Str, false));
+            }
+            4 => {
+                feats.push("shape:IntSwissKnife-feature");
+                xml += &format!("<IntSwissKnife Name=\"N{i}\"><pVariable Name=\"A\">N{}</pVariable><pVariable Name=\"B\">N{}</pVariable><Formula>A + B * 2</Formula></IntSwissKnife>\n", rng.pick(&ints_all), rng.pick(&ints_all));
+                kinds.push((SK::Int, false));
+            }
+            5 => {
+                xml += &format!("<Boolean Name=\"N{i}\"><pValue>N{}</pValue></Boolean>\n", rng.pick(&ints));
+                kinds.push((SK::Bool, false));
+            }
+            6 => {
+                xml += &format!("<Command Name=\"N{i}\"><pValue>N{}</pValue><CommandValue>{}</CommandValue></Command>\n", rng.pick(&ints), rng.pick(&[1i64, 2, 4, 8]));
+                kinds.push((SK::Cmd, false));
+            }
+            _ => {
+                xml += &format!("<Integer Name=\"N{i}\"><pValue>N{}</pValue></Integer>\n", rng.pick(&ints));
+                kinds.push((SK::Int, false));
+            }
+        }
+    }
+    xml += "</RegisterDescription>\n";
+    let mut dev = DevSpec { mem, no_access: vec![], no_write: vec![], rej_w: vec![], rej_p: vec![] };
+    if rng.chance(1, 5) {
+        dev.rej_w.push(rng.below(10));
+    }
+    if rng.chance(1, 5) {
+        let jl = rng.below(3) as usize;
+        dev.rej_p.push((rng.below(10), rng.range(0, 3) as usize, rng.bytes(jl)));
+    }
+    let n = kinds.len();
+    let n_ops = rng.range(8, if thorough { 60 } else { 36 }) as usize;
+    let regs: Vec<usize> = (0..n).filter(|j| kinds[*j].1).collect();
+    let mut ops = vec![];
+    while ops.len() < n_ops {
+        let j = rng.below(n as u64) as usize;
+        let (k, is_reg) = kinds[j];
+        match rng.below(20) {
+            0..=6 if k != SK::Port && k != SK::Cmd && k != SK::Raw => ops.push(Op::Value(j)),
+            7..=10 => match k {
+                // keep the length / address sources small so buffers stay small and addresses near the image
+                SK::Int => ops.push(Op::SetValue(j, ValS::Int(if srcs.contains(&j) || rng.bool() { *rng.pick(&[0i64, 1, 2, 2, 4, 4, 8, 3]) } else { rng.below(200) as i64 }))),
+                SK::Flt => ops.push(Op::SetValue(j, ValS::Flt(8, ((rng.below(40) as f64) / 2.0).to_bits()))),
+                SK::Str => {
+                    let l = rng.below(5) as usize;
+                    ops.push(Op::SetValue(j, ValS::Str((0..l).map(|_| rng.range(0x41, 0x5a) as u8).collect())))
+                }
+                SK::Bool => ops.push(Op::SetValue(j, ValS::Bool(rng.bool()))),
+                SK::Cmd => ops.push(Op::Execute(j)),
+                _ => {}
+            },
+            11..=13 if is_reg => ops.push(Op::Read(j, *rng.pick(&[1usize, 2, 2, 4, 4, 8, 3]))),
+            14..=15 if is_reg => {
+                let l = *rng.pick(&[1usize, 2, 2, 4, 4, 8]);
+                ops.push(Op::Write(j, rng.bytes(l)))
+            }
+            16 if is_reg => ops.push(Op::Address(j)),
+            16 if k == SK::Cmd => ops.push(Op::IsDone(j)),
+            17 | 18 => {
+                // the length-key shape: read, change a source (length / address / offset), read again, change back, read
+                let r = *rng.pick(&regs);
+                let s0 = if rng.chance(7, 10) { *rng.pick(&vsrcs) } else { *rng.pick(&srcs) };
+                let rd = |rng: &mut Rng, l: i64| if kinds[r].0 != SK::Raw && rng.chance(3, 4) { Op::Value(r) } else { Op::Read(r, l as usize) };
+                let (v1, v2) = (*rng.pick(&[1i64, 2, 4, 8]), *rng.pick(&[1i64, 2, 4, 8]));
+                ops.push(Op::SetValue(s0, ValS::Int(v1)));
+                ops.push(rd(rng, v1));
+                ops.push(Op::SetValue(s0, ValS::Int(v2)));
+                ops.push(rd(rng, v2));
+                ops.push(rd(rng, v2));
+                if rng.bool() {
+                    ops.push(Op::SetValue(s0, ValS::Int(v1)));
+                    ops.push(rd(rng, v1));
+                }
+            }
+            0..=6 => ops.push(if rng.chance(1, 3) { Op::ClearCache } else if rng.bool() { Op::IsReadable(j) } else { Op::IsWritable(j) }),
+            19 => {
+                let pn = rng.below(n_ports as u64) as usize;
+                if rng.bool() {
+                    ops.push(Op::PortRead(pn, rng.below(n_mem as u64) as i64, rng.range(1, 4) as usize))
+                } else {
+                    let l = rng.range(1, 3) as usize;
+                    ops.push(Op::PortWrite(pn, rng.below(n_mem as u64) as i64, rng.bytes(l)))
+                }
+            }
+            _ => {}
+        }
+    }
+    feats.sort();
+    feats.dedup();
+    (ShapeCase { xml, kinds, dev, ops }, feats)
+}
+
+/// both builds, same history; returns the oracle's findings and the two runs
+fn shape_findings(case: &ShapeCase) -> Option<(Vec<(Value, String)>, RunResult, RunResult)> {
+    let built_c = catch(|| GenApiBuilder::<DefaultNodeStore>::default().build(&case.xml));
+    let built_u = catch(|| GenApiBuilder::<DefaultNodeStore>::default().no_cache().build(&case.xml));
+    let ((_, store_c, mut cx_c), (_, store_u, mut cx_u)) = match (built_c, built_u) {
+        (Ok(Ok(c)), Ok(Ok(u))) => (c, u),
+        _ => return None,
+    };
+    let n = case.kinds.len();
+    let ids_c: Vec<NodeId> = (0..n).map(|i| store_c.id_by_name(format!("N{i}")).expect("node present")).collect();
+    let ids_u: Vec<NodeId> = (0..n).map(|i| store_u.id_by_name(format!("N{i}")).expect("node present")).collect();
+    let dummy = vec![NodeSpec::Port; n];
+    let rc = run_hist(&dummy, &ids_c, &store_c, &mut cx_c, &case.dev, &case.ops);
+    let ru = run_hist(&dummy, &ids_u, &store_u, &mut cx_u, &case.dev, &case.ops);
+    let mut out = vec![];
+    if rc.outs != ru.outs {
+        let i = rc.outs.iter().zip(ru.outs.iter()).position(|(a, b)| a != b).unwrap_or(rc.outs.len().min(ru.outs.len()));
+        out.push((
+            json!({"kind": "shape-result-differs"}),
+            format!("op #{i} `{}`: cached run returned {} but uncached run returned {}", case.ops.get(i).map(op_str).unwrap_or_default(), rc.outs.get(i).map_or("-".into(), out_str), ru.outs.get(i).map_or("-".into(), out_str)),
+        ));
+    } else if rc.mem != ru.mem {
+        out.push((json!({"kind": "shape-final-image-differs"}), format!("final device image differs: cached {} uncached {}", hex(&rc.mem), hex(&ru.mem))));
+    } else if !log_sub(&rc.log, &ru.log) {
+        out.push((json!({"kind": "shape-log-not-sub"}), format!("cached access log is not the uncached log minus successful reads: cached {} uncached {}", log_str(&rc.log), log_str(&ru.log))));
+    }
+    Some((out, rc, ru))
+}
+
+fn do_shape_case(rep: &mut Report, case: &ShapeCase, feats: &[&'static str], src: &str) {
+    let replay = shape_to_json(case);
+    let (found, rc, ru) = match shape_findings(case) {
+        Some(x) => x,
+        None => {
+            rep.count("build:failed");
+            rep.violation(json!({"kind": "harness-xml-rejected"}), "generated shapes XML was rejected by the real builder", replay);
+            return;
+        }
+    };
+    let canon = format!("{} {} {}", case.xml, dev_str(&case.dev), ops_str(&case.ops));
+    let nontrivial = rc.outs.iter().filter(|x| !matches!(x, Out::Err(_) | Out::Panic)).count() >= 3 && rc.log.iter().any(|a| a.write && a.ok);
+    rep.case(&canon, nontrivial);
+    rep.count(&format!("case/{src}"));
+    rep.count("oracle:shapes(every cachable register lists every port)");
+    rep.count("tie:skipped(shapes are not in the model)");
+    for f in feats {
+        rep.count(f);
+    }
+    if rc.log.len() < ru.log.len() {
+        rep.count("shape:cache-served-a-read");
+    }
+    // the same register cached under two different lengths at the same time is what makes the length key observable
+    {
+        let mut lens: std::collections::BTreeMap<i64, Vec<usize>> = Default::default();
+        for a in rc.log.iter().filter(|a| !a.write && a.ok) {
+            let e = lens.entry(a.addr).or_default();
+            if !e.contains(&a.len) {
+                e.push(a.len);
+            }
+        }
+        if lens.values().any(|v| v.len() > 1) {
+            rep.count("shape:same-address-read-with-two-lengths");
+        }
+    }
+    for (op, out) in case.ops.iter().zip(rc.outs.iter()) {
+        let res = match out {
+            Out::Err(e) => format!("err-{e}"),
+            Out::Panic => "panic".into(),
+            _ => "ok".into(),
+        };
+        rep.count(&format!("shape-op:{}:{res}", op_str(op).split('/').next().unwrap_or("")));
+    }
+    for (sig, what) in found {
+        // minimise the history
+        let kind = sig["kind"].as_str().unwrap_or("").to_string();
+        let mut cur = case.clone();
+        let mut w2 = what.clone();
+        if rep.n_violations < 12 {
+            let mut progress = true;
+            while progress {
+                progress = false;
+                let mut i = cur.ops.len();
+                while i > 0 {
+                    i -= 1;
+                    let mut cand = cur.clone();
+                    cand.ops.remove(i);
+                    if let Some((f, _, _)) = shape_findings(&cand) {
+                        if let Some((_, w)) = f.into_iter().find(|(s, _)| s["kind"] == kind.as_str()) {
+                            cur = cand;
+                            w2 = w;
+                            progress = true;
+                        }
+                    }
+                }
+            }
+        }
+        rep.violation(sig, &format!("{w2} [{} -> {} ops]", case.ops.len(), cur.ops.len()), shape_to_json(&cur));
+    }
 }
 
 /// coarse cause class for a differing result (part of the violation signature)
@@ -1896,13 +2531,17 @@ fn main() {
     let args = parse_args();
     let mut rep = Report::new(
         "C04",
-        "random register graphs (overlapping / selector-addressed / StructReg-entry registers, all Cachable modes, Integer and Command features) x random device images and rejection scripts x random histories; each case runs the real code with DefaultCacheStore and with CacheSink; a case is non-trivial when at least 3 operations succeed and at least one device write succeeds; distinct by (effective graph, device script, history)",
+        "random register graphs (overlapping / selector-addressed / StructReg-entry registers, all Cachable modes, StructReg groups of 1..3 StructEntry children with Cachable / AccessMode / pInvalidator declared at struct level, entry level, both (different values) or neither — the abstract description follows the XML semantics, not the parsed node; one or two ports, Integer (pValue, pValueCopy) / Boolean / Enumeration / Command features) x random device images and rejection scripts (static ranges, rejected write ordinals, non-atomic rejections) x random histories; each case runs the real code with DefaultCacheStore and with CacheSink. `evaluations` counts ALL cases; the model tie (both runs + Declared) covers the declared / undeclared / via-feature streams (80% of the cases); the controller stream (10%: pIsImplemented / pIsAvailable / pIsLocked + is_* queries) and the shapes stream (10%: pLength, pAddress, IntSwissKnife address, pIndex pOffset, Float / String / Converter / IntConverter / IntSwissKnife features, value-store sources) are implementation-vs-implementation only (see tie:skipped counters). A case is non-trivial when at least 3 operations succeed and at least one device write succeeds; distinct by (effective graph or XML, device script, history)",
     );
 
     if let Some(path) = &args.replay {
         let v: Value = serde_json::from_str(&std::fs::read_to_string(path).unwrap()).unwrap();
-        let case = case_from_json(&v["replay"]);
-        do_case(&mut rep, &case, "replay", v["replay"].clone());
+        if v["replay"]["shape"].is_object() {
+            do_shape_case(&mut rep, &shape_from_json(&v["replay"]), &[], "replay");
+        } else {
+            let case = case_from_json(&v["replay"]);
+            do_case(&mut rep, &case, "replay", v["replay"].clone());
+        }
         rep.write(&args);
         return;
     }
@@ -1913,8 +2552,12 @@ fn main() {
         files.sort();
         for f in files {
             if let Ok(v) = serde_json::from_str::<Value>(&std::fs::read_to_string(&f).unwrap_or_default()) {
-                let case = case_from_json(&v["replay"]);
-                do_case(&mut rep, &case, "corpus", v["replay"].clone());
+                if v["replay"]["shape"].is_object() {
+                    do_shape_case(&mut rep, &shape_from_json(&v["replay"]), &[], "corpus");
+                } else {
+                    let case = case_from_json(&v["replay"]);
+                    do_case(&mut rep, &case, "corpus", v["replay"].clone());
+                }
             }
         }
     }
@@ -1922,6 +2565,11 @@ fn main() {
     let mut rng = Rng::new(args.seed);
     let n_cases = if args.thorough() { 30_000 } else { 3_000 };
     for i in 0..n_cases {
+        if i % 10 == 8 {
+            let (case, feats) = gen_shape_case(&mut rng, args.thorough());
+            do_shape_case(&mut rep, &case, &feats, "shapes-stream");
+            continue;
+        }
         let stream = match i % 10 {
             4 | 9 => Stream::Undeclared,
             2 | 7 => Stream::Via,
